@@ -48,7 +48,8 @@ Proof.
     intros q cq Hfq. destruct (Hq3 q cq Hfq) as [x [p [cx [H1 [H2 [H3 [H4 H5]]]]]]].
     exists x, p, cx. rewrite Fw. repeat split; auto. eapply anc_same_wins; eauto.
   - exact Hqk.
-  - rewrite Hd. exact Dg.
+  - rewrite Hd. destruct Dg as [od [E Hdg]]. exists od. split; [exact E|]. intros d Ed Hn Hl.
+    eapply anc_same_wins; eauto. apply Hdg; auto. rewrite <- Fw. exact Hl.
   - intros a Ha. rewrite Fw in Ha. rewrite Hnw. auto.
   - rewrite Hnw. exact NWR.
   - exact Hnq.
@@ -102,6 +103,9 @@ Definition qunlink (h : heap) (sl : option positive) (q : positive) (nxt : ptr) 
     | None => h
     end
   end.
+
+Lemma qunlink_drag : forall h sl q nxt, r_drag (rx (qunlink h sl q nxt)) = r_drag (rx h).
+Proof. intros h sl q nxt. unfold qunlink. destruct sl as [z|]; [destruct (findq h z)|]; reflexivity. Qed.
 
 Lemma hinv_qunlink : forall D h kept q rest c sl,
   hinv D h -> qchain h (r_queue (rx h)) (kept ++ q :: rest) -> findq h q = Some c -> qslot_at kept sl ->
@@ -240,7 +244,8 @@ Lemma purge_loop_spec : forall D w fuel h kept rest sl cr,
   (forall a ca x, In a kept -> findq h a = Some ca -> q_win ca = Some x -> ~ anc h x w) ->
   hoare (fun h1 => h1 = h) (purge_loop fixed fuel root sl w)
         (fun _ h' => hinv D h' /\ (wins h' = wins h /\ nextw h' = nextw h) /\ unqueued h' w /\
-                     (forall q cq, findq h' q = Some cq -> exists cq0, findq h q = Some cq0 /\ q_win cq = q_win cq0)).
+                     (forall q cq, findq h' q = Some cq -> exists cq0, findq h q = Some cq0 /\ q_win cq = q_win cq0) /\
+                     r_drag (rx h') = r_drag (rx h)).
 Proof.
   intros D w. induction fuel as [|f IH]; intros h kept rest sl cr HI Hr Hlw Hc Hsl Hkept h1 E; subst h1; [cbn; exact I|].
   cbn [purge_loop].
@@ -249,7 +254,7 @@ Proof.
   assert (ql = kept ++ rest) by (eapply qchain_fun; eauto). subst ql.
   destruct rest as [|q rest].
   - (* the end of the queue *)
-    cbn. split; [exact HI|]. split; [split; reflexivity|]. split; [|eauto].
+    cbn. split; [exact HI|]. split; [split; reflexivity|]. split; [|split; [eauto|reflexivity]].
     intros a ca x Hfa Hx. rewrite app_nil_r in Hq2. apply (Hkept a ca x); auto. apply Hq2. congruence.
   - assert (Hinq : In q (kept ++ q :: rest)) by (apply in_or_app; right; left; reflexivity).
     pose proof (qchain_live h _ _ Hc q Hinq) as Hlq. destruct (findq h q) as [c|] eqn:Hfq; [|congruence].
@@ -279,7 +284,8 @@ Proof.
         apply (Hkept a ca0 x0 Ha H0); [congruence|]. eapply anc_same_wins; [|exact Hanc]. symmetry. exact Hw'. }
       specialize (IH h' kept rest sl cr HI' Hr' Hlw' Hc' Hsl Hk' h' eq_refl).
       destruct (purge_loop fixed f root sl w h') as [u2 h2| |]; [|contradiction|exact I].
-      destruct IH as [HI2 [[Hw2 Hnw2] [Hu2 Hold2]]]. split; [exact HI2|]. split; [split; congruence|]. split; [exact Hu2|].
+      destruct IH as [HI2 [[Hw2 Hnw2] [Hu2 [Hold2 Hdr2]]]]. split; [exact HI2|]. split; [split; congruence|]. split; [exact Hu2|].
+      split; [|rewrite Hdr2; apply qunlink_drag].
       intros a ca Hfa. destruct (Hold2 a ca Hfa) as [ca1 [H1 E1]].
       destruct (Hold' a ca1 H1) as [ca0 [H0 [E0 _]]]. exists ca0. split; auto. congruence.
     + (* keep it *)
@@ -293,14 +299,44 @@ Proof.
       exact (IH h (kept ++ [q]) rest (Some q) cr HI Hr Hlw Hc2 Hsl2 Hk2 h eq_refl).
 Qed.
 
-(* the repaired purge: the subtree of [w] has no queued request afterwards; windows are untouched *)
+(* the drag source is forgotten: everything else stays *)
+Lemma hinv_drag_none : forall D h, hinv D h -> hinv D (with_rx h (set_rdrag (rx h) (Some None))).
+Proof.
+  intros D h HI. set (h' := with_rx h (set_rdrag (rx h) (Some None))).
+  assert (Hw : wins h' = wins h) by reflexivity.
+  destruct HI as [K P PL O F R C I RP Q QK Dg NW NWR NQ].
+  constructor.
+  - intros a c Hf. destruct (K a c Hf) as [l [Hc Hl]]. exists l. split; [eapply chain_same_wins; eauto|exact Hl].
+  - exact P.
+  - exact PL.
+  - exact O.
+  - exact F.
+  - exact R.
+  - exact C.
+  - exact I.
+  - exact RP.
+  - destruct Q as [ql [Hq1 [Hq2 Hq3]]]. exists ql. split; [|split].
+    + change (r_queue (rx h')) with (r_queue (rx h)). eapply qchain_same; [exact Hq1|]. intros; reflexivity.
+    + exact Hq2.
+    + intros q cq Hfq. destruct (Hq3 q cq Hfq) as [x [p [cx [H1 [H2 [H3 [H4 H5]]]]]]].
+      exists x, p, cx. repeat split; auto. eapply anc_same_wins; eauto.
+  - exact QK.
+  - exists None. split; [reflexivity|]. intros d Ed. discriminate.
+  - exact NW.
+  - exact NWR.
+  - exact NQ.
+Qed.
+
+(* the repaired purge: the subtree of [w] has no queued request afterwards and does not hold the drag source;
+   windows are untouched *)
 Lemma purge_spec : forall D fuel w h,
-  hinv D h -> findw h w <> None ->
+  hinv D h -> findw h w <> None -> ~ In root D ->
   hoare (fun h1 => h1 = h) (purge fixed fuel w)
         (fun _ h' => hinv D h' /\ (wins h' = wins h /\ nextw h' = nextw h) /\ unqueued h' w /\
-                     (forall q cq, findq h' q = Some cq -> exists cq0, findq h q = Some cq0 /\ q_win cq = q_win cq0)).
+                     (forall q cq, findq h' q = Some cq -> exists cq0, findq h q = Some cq0 /\ q_win cq = q_win cq0) /\
+                     undragged D h' w).
 Proof.
-  intros D fuel w h HI Hlw h1 E. subst h1. unfold purge. cbn [v_close_nopurge fixed].
+  intros D fuel w h HI Hlw Hnr h1 E. subst h1. unfold purge. cbn [v_close_nopurge fixed].
   unfold bind at 1.
   pose proof (top_walk_spec D fuel w h (conj HI Hlw)) as Htw.
   destruct (top_walk fuel w h) as [t h1| |]; [|contradiction|exact I].
@@ -311,12 +347,48 @@ Proof.
   - apply Pos.eqb_eq in Et. subst t.
     assert (Hir : w_isroot ct = true) by (rewrite (hi_isroot D h HI root ct Hft); apply Pos.eqb_refl).
     unfold bind at 1. rewrite (getr_run h root ct Hft Hir).
-    rewrite (hi_drag D h HI). unfold bind at 1. cbn [ret].
-    destruct (hi_queue D h HI) as [ql [Hq1 _]].
-    apply (purge_loop_spec D w fuel h [] ql None ct HI Hft Hlw Hq1).
-    + left. auto.
-    + intros a ca x [].
-    + reflexivity.
-  - apply Pos.eqb_neq in Et. cbn. split; [exact HI|]. split; [split; reflexivity|]. split; [|eauto].
-    eapply unqueued_off_tree; eauto.
+    destruct (hi_drag D h HI) as [od [Ed Hda]]. rewrite Ed.
+    (* the loop over the queue, from a heap whose windows are those of [h] *)
+    assert (Hloop : forall h2, hinv D h2 -> wins h2 = wins h -> nextw h2 = nextw h -> reqs h2 = reqs h ->
+              (r_drag (rx h2) = Some None \/ (r_drag (rx h2) = r_drag (rx h) /\ forall d, od = Some d -> ~ anc h d w)) ->
+              match purge_loop fixed fuel root None w h2 with
+              | Ok _ h' => hinv D h' /\ (wins h' = wins h /\ nextw h' = nextw h) /\ unqueued h' w /\
+                           (forall q cq, findq h' q = Some cq -> exists cq0, findq h q = Some cq0 /\ q_win cq = q_win cq0) /\
+                           undragged D h' w
+              | Fault _ _ => False
+              | NoFuel => True
+              end).
+    { intros h2 HI2 Hw2 Hnw2 Hq2 Hdr2.
+      assert (Fw2 : forall a, findw h2 a = findw h a) by (intro a; unfold findw; rewrite Hw2; reflexivity).
+      destruct (hi_queue D h2 HI2) as [ql [Hq1 _]].
+      assert (Hft2 : findw h2 root = Some ct) by (rewrite Fw2; exact Hft).
+      assert (Hlw2 : findw h2 w <> None) by (rewrite Fw2; exact Hlw).
+      pose proof (purge_loop_spec D w fuel h2 [] ql None ct HI2 Hft2 Hlw2 Hq1 (or_introl (conj eq_refl eq_refl))
+                    (fun a ca x (Hin : In a []) => match Hin with end) h2 eq_refl) as Hpl.
+      destruct (purge_loop fixed fuel root None w h2) as [u h3| |]; [|contradiction|exact I].
+      destruct Hpl as [HI3 [[Hw3 Hnw3] [Hu3 [Hold3 Hdr3]]]].
+      split; [exact HI3|]. split; [split; congruence|]. split; [exact Hu3|]. split.
+      - intros q cq Hfq. destruct (Hold3 q cq Hfq) as [cq0 [H0 E0]]. exists cq0. split; [|exact E0].
+        unfold findq in *. rewrite <- Hq2. exact H0.
+      - intros d Hd Hn Hl Hanc. rewrite Hdr3 in Hd. destruct Hdr2 as [Enone|[Esame Hnot]]; [congruence|].
+        rewrite Esame, Ed in Hd. inversion Hd; subst od. apply (Hnot d eq_refl).
+        eapply anc_same_wins; [|exact Hanc]. congruence. }
+    destruct od as [d|].
+    + (* there is a drag source: is it the window or below it? *)
+      assert (Hl : findw h root <> None) by congruence.
+      pose proof (Hda d eq_refl Hnr Hl) as Hdroot.
+      pose proof (is_within_spec D fuel (Some d) w h) as Hiw.
+      assert (Hpre : hinv D h /\ (forall a, Some d = Some a -> findw h a <> None)).
+      { split; auto. intros a Ea. inversion Ea; subst a. eapply anc_live_l; eauto. }
+      specialize (Hiw Hpre). unfold bind at 1. unfold bind at 1.
+      destruct (is_within fuel (Some d) w h) as [b h1| |]; [|contradiction|exact I].
+      destruct Hiw as [Eh Hb]. subst h1. destruct b.
+      * unfold setr. unfold bind at 1. rewrite (getw_run h root ct Hft). rewrite Hir.
+        apply Hloop; try reflexivity; [apply hinv_drag_none; exact HI|left; reflexivity].
+      * cbn [ret]. apply Hloop; try reflexivity; [exact HI|]. right. split; [reflexivity|].
+        intros d0 Ed0 Hanc. inversion Ed0; subst d0. apply Hb in Hanc. discriminate.
+    + unfold bind at 1. cbn [ret]. apply Hloop; try reflexivity; [exact HI|]. left. exact Ed.
+  - apply Pos.eqb_neq in Et. cbn. split; [exact HI|]. split; [split; reflexivity|]. split; [eapply unqueued_off_tree; eauto|].
+    split; [eauto|]. eapply undragged_off_tree; eauto.
 Qed.
+
